@@ -140,6 +140,46 @@ static void api_case(const JVal& model, vf::Rng& r, BufState bs) {
   }
 }
 
+// a value of every kind reached by Serialize with every remaining capacity 0..48 of a caller-sized write buffer (behind
+// enough 20-digit numbers to outgrow the serializer's up-front estimate): every append path (the padded 8-byte store of
+// null/true/false, brackets, separators, strings, numbers) has to reserve what it writes
+static vf::Counter c_kindcap("value-of-every-kind-at-every-remaining-capacity");
+static void value_at_remaining_capacity_case(uint64_t i, vf::Rng& r) {
+  size_t m = 30 + (size_t)(i % 6) * 9;
+  su::PoolDoc d;
+  d.SetArray();
+  std::string prefix = "[";
+  for (size_t k = 0; k < m; k++) {
+    uint64_t x = UINT64_MAX - k;
+    d.PushBack(su::PoolNode(x), d.GetAllocator());
+    prefix += std::to_string(x) + ",";
+  }
+  static const char* tails[] = {"null", "true", "false", "[null]", "[true,false]", "{\"a\":null}", "[[false]]", "\"ab\"", "[]", "{}", "7", "[null,null,null,null]", "{\"k\":[true]}"};
+  for (const char* tl : tails) {
+    jm::RefResult rr = jm::ref_parse(tl);
+    su::PoolNode node;
+    su::build_node(node, rr.v, d.GetAllocator());
+    d.PushBack(std::move(node), d.GetAllocator());
+    std::string expect = prefix + tl + "]";
+    for (size_t rem = 0; rem <= 48; rem++) {
+      c_kindcap.add();
+      vf::eval();
+      WriteBuffer wb(prefix.size() + rem);
+      vf::note("Serialize([numbers..., value]) into a sized WriteBuffer");
+      SonicError e = d.Serialize(wb);
+      std::string out(wb.ToString(), wb.Size());
+      if (e != kErrorNone || out != expect) {
+        vf::violation("value-at-remaining-capacity", std::string("tail ") + tl + ", remaining " + std::to_string(rem) + ": ..." + vf::printable(out.substr(out.size() > 40 ? out.size() - 40 : 0)));
+        return;
+      }
+    }
+    d.PopBack();
+  }
+  vf::witness("[" + std::to_string(m) + " x 20-digit number, value of every kind] into WriteBuffer(prefix+0..48)");
+  vf::distinct_enum(13 * 49);
+  (void)r;
+}
+
 int main(int argc, char** argv) {
   std::vector<vf::Stream> S;
 
@@ -277,6 +317,7 @@ int main(int argc, char** argv) {
                }});
 
   // fill-level sweep: the write cursor passes every residue relative to the buffer capacity
+  S.push_back({"value_of_every_kind_at_every_remaining_capacity", 6, 6, value_at_remaining_capacity_case, false});
   S.push_back({"fill_level_sweep", 9 * 7 * 6, 9 * 7 * 6, [](uint64_t i, vf::Rng& r) {
                  static const char* elem_names[] = {"null", "false", "true", "emptystr", "str1", "zero", "dbl", "emptyarr", "emptyobj"};
                  int el = (int)(i % 9);
